@@ -6,7 +6,7 @@ from typing import Any, Dict, List, Optional, Set, Tuple
 
 from .. import linexpr as lx
 from ..ccfg import build_c_cfg, loop_heads
-from ..cfacts import CUnit, call_args, callee, int_value, is_assign, strip, walk
+from ..cfacts import CUnit, dispatcher_of, call_args, callee, int_value, is_assign, strip, walk
 from ..core import AnalysisError, Report
 from ..linexpr import Env, c_ir, to_lin
 from ..pycfg import Graph, Node, must_dataflow, path_to
@@ -52,11 +52,16 @@ def _mem_of(n: Dict[str, Any]) -> Optional[Tuple[str, Dict[str, Any]]]:
 def rule_cache(rep: Report, cu: CUnit) -> None:
     rep.rule('C07.CACHE', 'in the paged run loop a fact read through a page-cache slot index (valid range, words '
              'pointer) is used only while the key test for that slot dominates it with no intervening call that can '
-             'refill the cache (everything reaching page_cache_fill, and the two Python callbacks)', 6)
+             'refill the cache (everything reaching the function that installs a cache entry, and the two Python callbacks)', 6)
     cg = call_graph(cu)
-    invalidating = reaches(cg, 'page_cache_fill') | {'PyObject_CallFunctionObjArgs', 'PyObject_CallNoArgs'}
+    # the cache installer(s): whatever function stores into the page-cache key array (found by what it does, not by its name)
+    installers = sorted(f for f in cu.funcs if f not in ('Memory_init', 'mem_free_allocations') and any(
+        is_assign(n) and (_mem_of(strip(n['inner'][0])) or ('', None))[0] == 'page_cache_key_plus1' for n in walk(cu.body(f))))
+    if not installers:
+        raise AnalysisError('C07.CACHE: no function stores into page_cache_key_plus1 (the cache installer vanished)')
+    invalidating = set().union(*[reaches(cg, f) for f in installers]) | {'PyObject_CallFunctionObjArgs', 'PyObject_CallNoArgs'}
     if 'mem_get_page' not in invalidating or 'mem_flip_bit' not in invalidating:
-        raise AnalysisError('C07.CACHE: call graph does not show mem_get_page/mem_flip_bit reaching page_cache_fill')
+        raise AnalysisError(f'C07.CACHE: call graph does not show mem_get_page/mem_flip_bit reaching the cache installer {installers}')
     fname = 'run_paged_loop_impl'
     seen_uses = 0
     for ring in (0, 1):
@@ -512,8 +517,8 @@ def rule_mode(rep: Report, cu: CUnit, repo: Repo) -> None:
     IN = path_conditions(g, g.entry, c_assigned, c_mentions)
     want = {
         'run_measured_loop': {'measure_speculation && measure_speculation[0] == \'1\' && last_ops_length == 0:T'},
-        'run_flat_loop': {'self->flat && last_ops_length == 0:T'},
-        'run_generic_loop': {'self->flat && last_ops_length == 0:F'},
+        dispatcher_of(cu, 'run_flat_loop_impl'): {'self->flat && last_ops_length == 0:T'},
+        dispatcher_of(cu, 'run_paged_loop_impl'): {'self->flat && last_ops_length == 0:F'},
     }
     found = set()
     for node in g.nodes:
@@ -560,8 +565,9 @@ def rule_record(rep: Report, cu: CUnit, repo: Repo) -> None:
             l0 = strip(n['inner'][0])
             if l0.get('kind') == 'ArraySubscriptExpr' and cu.src_of(l0['inner'][0]) == 'last_ops_ring':
                 ring_idx = lx.canon(c_ir(l0['inner'][1], cu.src_of), env)
-                inc = 'ring_writes++' in cu.src_of(cu.parent(n) or n) or any(
-                    cu.src_of(x) == 'ring_writes++' for x in walk(cu.parent(n) or n))
+                blk = cu.parent(n) or n
+                inc = any(cu.src_of(x).replace(' ', '') in ('ring_writes++', '++ring_writes', 'ring_writes+=1', 'ring_writes=ring_writes+1')
+                          for x in walk(blk)) or 'ring_writes++' in cu.src_of(blk)
     rep.check(ring_idx == '(ring_writes)%(last_ops_length)' and inc, 'C07.RECORD', 'ring-write', f'slot {ring_idx}, inc={inc}',
               cu.site(cu.func('run_paged_loop_impl')), expected='ring[writes % length] = ip; writes++')
     # the emitter: the function (outside the run loops) that READS the ring into the python list
